@@ -17,7 +17,7 @@ from ..dataflow import Flow, chain, call_name
 from ..absint import Interp
 from ..poly import Poly, le, lt, eq
 from ..terms import Terms, mk_cmp, is_none, unsite, split_cond, \
-    alternatives, match, V, show
+    alternatives, match, V, ANY, show, lookup, subterms
 from ..util import calls_in, qual, formals, returns_of, raises_of, \
     raise_name, has_fact, bind, parse_expr
 
@@ -450,106 +450,180 @@ def _resolve(fl, expr, node):
     return unparse(expr)
 
 
+def _intersects(a, b, cond):
+    """Is ``cond`` intersect(a.key, a.mask, b.key, b.mask) (either order)?
+    a, b: terms of entries, or (key term, mask term) pairs."""
+    def km(x):
+        return x if isinstance(x, list) else [("attr", x, "key"),
+                                              ("attr", x, "mask")]
+    f = ("global", "intersect")
+    return cond in (("call", f, tuple(km(a) + km(b)), ()),
+                    ("call", f, tuple(km(b) + km(a)), ()))
+
+
 def r3_ranges(program, rep):
     up = program.get(OC + ":_refine_upcheck")
-    fl = Flow(up)
-    anys = calls_in(up, "any")
-    ok = False
-    if len(anys) == 1 and isinstance(anys[0].args[0], ast.GeneratorExp):
-        ge = anys[0].args[0]
-        it_ = ge.generators[0].iter
-        if isinstance(it_, ast.Subscript) and isinstance(it_.slice,
-                                                         ast.Slice) and \
-                it_.slice.lower is not None and it_.slice.upper is not None:
-            n = fl.cfg.node_containing(anys[0])
-            lo = fl.sym(it_.slice.lower, n)
-            lp = anys[0]._parent
-            while lp is not None and not isinstance(lp, ast.For):
-                lp = lp._parent
-            iv = fl.symvar(chain(lp.target), n)
-            c = ge.elt
-            dv = chain(ge.generators[0].target)
-            ok = unparse(it_.value) == "merge.routing_table" and \
-                (lo == iv + 1 or lo == iv) and \
-                unparse(it_.slice.upper) == "merge.insertion_index" and \
-                isinstance(c, ast.Call) and call_name(c)[0] == "intersect" \
-                and [_resolve(fl, a, n) for a in c.args] == [
-                    "entry.key", "entry.mask", "%s.key" % dv,
-                    "%s.mask" % dv]
-            # entry is routing_table[i]
-            ed = fl.reaching("entry", n)
-            ok = ok and len(ed) == 1 and unparse(ed[0].value) == \
-                "merge.routing_table[%s]" % chain(lp.target)
+    T = Terms(up)
+    cfg = T.cfg
+    # the removal of member i from the merge: _Merge(table, entries - {i})
+    rem = []
+    for c in calls_in(up, "_Merge"):
+        if len(c.args) < 2:
+            continue
+        n = cfg.node_containing(c)
+        t = T.term(c.args[1], n)
+        m = match(("binop", "Sub", ("attr", V("M"), "entries"),
+                   ("new", ANY, ("set", V("i")))), t)
+        if m is not None and T.term(c.args[0], n) == (
+                "attr", m["M"], "routing_table"):
+            rem.append((c, n, m["M"], m["i"]))
+    ok = len(rem) == 1
+    if ok:
+        c, n, M, I = rem[0]
+        TABLE = ("attr", M, "routing_table")
+        ENTRY = ("item", TABLE, I)
+        ok = False
+        for kind, it, conds in T.quantified(n):
+            if kind != "some":
+                continue
+            rng = it[0] == "item" and it[1] == TABLE and \
+                it[2][0] == "slice" and it[2][1] in (
+                    ("binop", "Add", I, ("const", 1)),
+                    ("binop", "Add", ("const", 1), I), I) and \
+                it[2][2] == ("attr", M, "insertion_index") and \
+                it[2][3] == ("const", None)
+            if rng and len(conds) == 1 and conds[0][1] is True and \
+                    _intersects(ENTRY, ("elem", it), conds[0][0]):
+                ok = True
     rep.check(ok, "C04-R3", qual(up), "up-check: a member at index i is "
-              "tested against table[i+1 : insertion_index] (everything "
-              "between it and where the merged entry will sit)",
-              construct="up-check range", node=up)
-    # changed flag only ever set
-    ch = [d for d in fl.defs if d.var == "changed"]
-    okc = len(ch) == 2
-    for d in ch:
-        okc = okc and d.mode == "assign" and isinstance(d.value,
-                                                       ast.Constant)
-        if isinstance(d.value, ast.Constant) and d.value.value is True:
-            rem = [x for x in fl.defs if x.var == "merge" and
-                   x.mode == "assign" and isinstance(x.value, ast.Call) and
-                   "entries - " in unparse(x.value)]
-            okc = okc and any(fl.cfg.dominates(x.node, d.node) or
-                              fl.cfg.dominates(d.node, x.node) for x in rem)
+              "removed when it intersects an entry of table[i+1 : "
+              "insertion_index] (everything between it and where the merged "
+              "entry will sit)", construct="up-check range", node=up)
+    # the flag returned with the merge is set whenever a member is removed
+    # and never reset
+    okc = False
     r = returns_of(up)
-    okc = okc and len(r) == 1 and isinstance(r[0].value, ast.Tuple) and \
-        [chain(e) for e in r[0].value.elts] == ["merge", "changed"]
-    rep.check(okc, "C04-R3", qual(up), "'changed' is set whenever a member "
-              "is removed and never reset; it is returned with the merge",
+    if len(r) == 1 and isinstance(r[0].value, ast.Tuple) and \
+            len(r[0].value.elts) == 2 and rem:
+        flag = chain(r[0].value.elts[1])
+        binds = [b_ for b_ in T.binds if b_.var == flag]
+        rn = rem[0][1]
+        loops = [x for x in ast.walk(up) if isinstance(x, (ast.For,
+                                                            ast.While))]
+        okc = bool(binds) and flag is not None
+        n_true = 0
+        for b_ in binds:
+            v = b_.value if b_.mode == "assign" else None
+            if not (isinstance(v, ast.Constant) and
+                    isinstance(v.value, bool)):
+                okc = False
+                continue
+            if v.value:
+                n_true += 1
+                okc = okc and (cfg.dominates(b_.node, rn) or
+                               cfg.dominates(rn, b_.node))
+            else:
+                okc = okc and not any(_own_within(b_.node.ast, lp)
+                                      for lp in loops)
+        okc = okc and n_true >= 1
+    rep.check(okc, "C04-R3", qual(up), "the flag returned with the merge is "
+              "set whenever a member is removed and never reset",
               construct="up-check changed flag", node=up,
               fail="the 'changed' flag of the up-check can be reset after a "
-                   "removal: the repeated down-check that must follow a "
-                   "shrunken merge may be skipped")
+                   "removal (or is not set by it): the repeated down-check "
+                   "that must follow a shrunken merge may be skipped")
     rm = program.get(OC + ":_refine_merge")
-    rfl = Flow(rm)
+    R = Terms(rm)
     dcs = calls_in(rm, "_refine_downcheck")
     ucs = calls_in(rm, "_refine_upcheck")
     okm = len(dcs) == 2 and len(ucs) == 1
     if okm:
-        n1, n2 = [rfl.cfg.node_containing(c) for c in dcs]
-        nu = rfl.cfg.node_containing(ucs[0])
-        f2 = rfl.facts(n2)
-        okm = rfl.cfg.dominates(n1, nu) and rfl.cfg.dominates(nu, n2) and \
-            has_fact(f2, "changed", True)
-        # every path on which changed is true and goodness remains reaches it
+        n1, n2 = [R.cfg.node_containing(c) for c in dcs]
+        nu = R.cfg.node_containing(ucs[0])
+        changed = R._comp(R.term(ucs[0], nu), 1, 2)
+        okm = R.cfg.dominates(n1, nu) and R.cfg.dominates(nu, n2) and \
+            (changed, True) in R.all_facts(n2)
+        # ... and nothing but the merge having become too poor skips it
+        if okm:
+            hyp = R.under((changed, True))
+            poor = [a for a in R.cfg.nodes if a.kind == "assume" and
+                    any(st[0] == "attr" and st[2] == "goodness"
+                        for st in subterms(R.cond(a.ast, a, True)[0]))]
+            okm = hyp.cfg.must_pass(
+                nu, lambda n: n is n2 or (n in poor and not R.cfg.dominates(
+                    n, n2)), targets=[R.cfg.exit],
+                avoid=[R.cfg.nodes[i] for i in hyp.dead])
     rep.check(okm, "C04-R3", qual(rm), "down-check, then up-check, then the "
               "down-check again iff the up-check changed the merge",
               construct="refine order", node=rm)
     cv = program.get(OC + ":_get_covered_keys_and_masks")
-    cfl = Flow(cv)
-    lps = [n for n in ast.walk(cv) if isinstance(n, ast.For)]
-    ok = False
-    if len(lps) == 2:
-        outer, inner = lps[0], lps[1]
-        it_ = outer.iter
-        ok = isinstance(it_, ast.Subscript) and isinstance(it_.slice,
-                                                          ast.Slice) and \
-            unparse(it_.value) == "merge.routing_table" and \
-            unparse(it_.slice.lower) == "merge.insertion_index" and \
-            it_.slice.upper is None
-        al = [d for d in cfl.defs if d.mode == "assign" and
-              isinstance(d.value, ast.Call) and
-              call_name(d.value)[0] == "get"]
-        ok = ok and len(al) == 1 and unparse(al[0].value) == \
-            "aliases.get(key_mask, [key_mask])" and \
-            chain(inner.iter) == al[0].var
-        km = [d for d in cfl.defs if d.var == "key_mask"]
-        ok = ok and len(km) == 1 and unparse(km[0].value) == \
-            "(entry.key, entry.mask)"
-        ys = [n for n in ast.walk(cv) if isinstance(n, ast.Yield)]
-        tests = calls_in(cv, "intersect")
-        ok = ok and len(tests) == 1 and [unparse(a) for a in
-                                         tests[0].args] == [
-            "merge.key", "merge.mask", "key", "mask"] and len(ys) == 1
+    C = Terms(cv)
+    mg, al = formals(cv)[:2]
+    MG = ("param", mg)
+    ys = [n for n in ast.walk(cv) if isinstance(n, ast.Yield)]
+    ok = len(ys) == 1
+    if ok:
+        yn = C.cfg.node_containing(ys[0])
+        yt = C.term(ys[0].value, yn)
+        LOWER = ("elem", ("item", ("attr", MG, "routing_table"),
+                          ("slice", ("attr", MG, "insertion_index"),
+                           ("const", None), ("const", None))))
+        KM = ("tuple", ("attr", LOWER, "key"), ("attr", LOWER, "mask"))
+        ok = yt[0] == "elem"
+        if ok:
+            own = ("new", ANY, ("list", KM))
+            seen_lookup = False
+            for alt in alternatives(yt[1]):
+                if match(own, alt) is not None:
+                    continue
+                lk = lookup(alt)
+                if alt[0] == "get" and len(alt) == 4:
+                    lk = (alt[1], alt[2]) if match(own, alt[3]) is not None \
+                        else None
+                if lk is not None and lk[0] == ("param", al) and \
+                        lk[1] == KM:
+                    seen_lookup = True
+                else:
+                    ok = False
+            ok = ok and seen_lookup
+        if ok:
+            ok = any(p and _intersects(
+                [("attr", MG, "key"), ("attr", MG, "mask")],
+                [C._comp(yt, 0, 2), C._comp(yt, 1, 2)], t)
+                for t, p in C.all_facts(yn))
     rep.check(ok, "C04-R3", qual(cv), "down-check: every entry from the "
               "insertion index downwards, expanded through the aliases it "
               "stands for, is tested against the merged key/mask",
               construct="down-check range", node=cv)
+    # the merging starts from the table in increasing order of generality,
+    # entries of equal generality staying in the order given (a stable sort
+    # on the generality alone)
+    oc = program.get(OC + ":ordered_covering")
+    O = Terms(oc)
+    gm = calls_in(oc, "_get_best_merge")
+    oks = len(gm) == 1
+    if oks:
+        tab = O.term(gm[0].args[0], O.cfg.node_containing(gm[0]))
+        LP = ("lparam", 0)
+        gen = ("lambda", 1, ("call", ("global", "_get_generality"),
+                             (("attr", LP, "key"), ("attr", LP, "mask")),
+                             ()))
+        want = ("call", ("global", "sorted"), (("param", formals(oc)[0]),),
+                (("key", gen),))
+        alts = [unsite(x) for x in alternatives(tab)]
+        oks = want in alts and all(
+            x == want or (x[0] == "comp" and x[2] == 0 and
+                          x[1][0] == "call" and x[1][1][0] == "attr" and
+                          x[1][1][2] == "apply") or x == ("rec",)
+            for x in alts)
+    rep.check(oks, "C04-R3", qual(oc), "merging starts from sorted(table, "
+              "key=generality): increasing generality, ties in the given "
+              "order (stable), and afterwards only merge.apply changes the "
+              "table", construct="initial order", node=oc,
+              fail="the table handed to the merge search is not the stable "
+                   "sort of the caller's table by generality: entries of "
+                   "equal generality may change places and a later entry "
+                   "can take keys from an earlier one")
     ap = program.get(OC + ":_Merge.apply")
     afl = Flow(ap)
     ins = [d for d in afl.defs if d.var == "new_table" and d.mode == "mut"
@@ -577,6 +651,15 @@ def r3_ranges(program, rep):
     rep.floor("C04-R3", 5)
 
 
+def _own_within(node, anc):
+    p = node
+    while p is not None:
+        if p is anc:
+            return True
+        p = getattr(p, "_parent", None)
+    return False
+
+
 def _loop(node):
     n = node
     while n is not None and not isinstance(n, (ast.For, ast.While)):
@@ -585,6 +668,35 @@ def _loop(node):
 
 
 def r4_aliases(program, rep):
+    # the merging starts from the table in increasing order of generality,
+    # entries of equal generality staying in the order given (a stable sort
+    # on the generality alone)
+    oc = program.get(OC + ":ordered_covering")
+    O = Terms(oc)
+    gm = calls_in(oc, "_get_best_merge")
+    oks = len(gm) == 1
+    if oks:
+        tab = O.term(gm[0].args[0], O.cfg.node_containing(gm[0]))
+        LP = ("lparam", 0)
+        gen = ("lambda", 1, ("call", ("global", "_get_generality"),
+                             (("attr", LP, "key"), ("attr", LP, "mask")),
+                             ()))
+        want = ("call", ("global", "sorted"), (("param", formals(oc)[0]),),
+                (("key", gen),))
+        alts = [unsite(x) for x in alternatives(tab)]
+        oks = want in alts and all(
+            x == want or (x[0] == "comp" and x[2] == 0 and
+                          x[1][0] == "call" and x[1][1][0] == "attr" and
+                          x[1][1][2] == "apply") or x == ("rec",)
+            for x in alts)
+    rep.check(oks, "C04-R3", qual(oc), "merging starts from sorted(table, "
+              "key=generality): increasing generality, ties in the given "
+              "order (stable), and afterwards only merge.apply changes the "
+              "table", construct="initial order", node=oc,
+              fail="the table handed to the merge search is not the stable "
+                   "sort of the caller's table by generality: entries of "
+                   "equal generality may change places and a later entry "
+                   "can take keys from an earlier one")
     ap = program.get(OC + ":_Merge.apply")
     afl = Flow(ap)
     ups = [c for c in calls_in(ap, "update")
@@ -659,98 +771,216 @@ def r4_aliases(program, rep):
               "|members| + 1 entries", construct="apply size", node=ap)
 
 
+def _P(n):
+    return ("param", n)
+
+
+def _len(t):
+    return ("call", ("global", "len"), (t,), ())
+
+
+def _meets(facts, target, size):
+    """Do the facts say that ``size`` is within ``target`` (or that there is
+    no target)?  strict: size < target."""
+    if (is_none(target), True) in facts:
+        return "no target"
+    if (mk_cmp("Gt", size, target), False) in facts or \
+            (mk_cmp("LtE", size, target), True) in facts:
+        return "<="
+    if (mk_cmp("Lt", size, target), True) in facts or \
+            (mk_cmp("GtE", size, target), False) in facts:
+        return "<"
+    return None
+
+
+def _exceeds(facts, target, size):
+    return (is_none(target), False) in facts and (
+        (mk_cmp("Gt", size, target), True) in facts or
+        (mk_cmp("LtE", size, target), False) in facts)
+
+
 def r5_contract(program, rep):
+    """With a target the result meets it or MinimisationFailedError(target,
+    reached) is raised: decided on canonical facts per path, so nesting,
+    negation, operand order and temporaries do not matter."""
     oc = program.get(OC + ":ordered_covering")
-    fl = Flow(oc)
+    T = Terms(oc)
+    rt, tl = formals(oc)[0], formals(oc)[1]
+    TL = _P(tl)
     ok = False
     for r in raises_of(oc):
         if raise_name(r) != "MinimisationFailedError":
             continue
-        f = fl.facts(fl.cfg.node_of(r))
-        ok = has_fact(f, "no_raise", False) and \
-            has_fact(f, "target_length is not None", True) and \
-            has_fact(f, "len(routing_table) > target_length", True)
-        a = [unparse(x) for x in r.exc.args]
-        ok = ok and a == ["target_length", "len(routing_table)"]
+        n = T.cfg.node_of(r)
+        args = [T.term(x, n) for x in r.exc.args]
+        ok = len(args) == 2 and args[0] == TL and args[1][0] == "call" and \
+            args[1][1] == ("global", "len")
+        if ok:
+            f = T.all_facts(n)
+            ok = (_P("no_raise"), False) in f and _exceeds(f, TL, args[1])
     rep.check(ok, "C04-R5", qual(oc), "ordered_covering raises "
               "MinimisationFailedError(target, reached) exactly when a "
               "target is given, not met, and raising is not disabled",
               construct="ordered_covering failure", node=oc)
     lp = [n for n in ast.walk(oc) if isinstance(n, ast.While)]
-    okl = len(lp) == 1 and unparse(lp[0].test) == \
-        "target_length is None or len(routing_table) > target_length"
-    brk = False
-    for n in ast.walk(oc):
-        if isinstance(n, ast.Break):
-            f = fl.facts([x for x in fl.cfg.nodes if x.ast is n][0])
-            brk = has_fact(f, "merge.goodness <= 0", True)
-    rep.check(okl and brk, "C04-R5", qual(oc), "merging continues until the "
+    okl = len(lp) == 1
+    if okl:
+        after = T.cfg.loop_exit[id(lp[0])]
+        paths = T.facts_by_path(after)
+        okl = bool(paths)
+        for ent, facts in paths:
+            size = None
+            for t, p in facts:
+                if t[0] == "cmp" and t[1] in ("Lt", "LtE") and \
+                        TL in (t[2], t[3]):
+                    size = t[3] if t[2] == TL else t[2]
+            met = size is not None and _meets(facts, TL, size) == "<="
+            stuck = any(t[0] == "cmp" and t[1] == "LtE" and p and
+                        t[3] == ("const", 0) and t[2][0] == "attr" and
+                        t[2][2] == "goodness" for t, p in facts) or any(
+                t[0] == "cmp" and t[1] == "Lt" and not p and
+                t[2] == ("const", 0) and t[3][0] == "attr" and
+                t[3][2] == "goodness" for t, p in facts)
+            okl = okl and (met or stuck)
+    rep.check(okl, "C04-R5", qual(oc), "merging continues until the "
               "target is met or no merge removes an entry (goodness <= 0)",
               construct="ordered_covering loop", node=oc)
     rd = program.get(RD + ":minimise")
-    rfl = Flow(rd)
-    ok = False
-    t, tl = formals(rd)[0], formals(rd)[1]
+    R = Terms(rd)
+    rtl = _P(formals(rd)[1])
+    ok = True
+    n_ret = 0
+    for r in returns_of(rd):
+        if r.value is None:
+            continue
+        n = R.cfg.node_of(r)
+        size = _len(R.term(r.value, n))
+        n_ret += 1
+        for ent, facts in R.facts_by_path(n):
+            ok = ok and _meets(facts, rtl, size) in ("no target", "<=", "<")
+    okx = False
     for r in raises_of(rd):
-        f = rfl.facts(rfl.cfg.node_of(r))
-        ok = has_fact(f, "%s is not None" % tl, True) and \
-            has_fact(f, "%s < len(new_table)" % tl, True)
-    aps = [c for c in calls_in(rd, "append")
-           if chain(call_name(c)[1]) == "new_table"]
-    ok = ok and len(aps) == 1 and chain(aps[0].args[0]) == "entry" and \
-        has_fact(rfl.facts(rfl.cfg.node_containing(aps[0])),
-                 "_is_defaultable(i, entry, %s, %s)" % (t, formals(rd)[2]),
-                 False)
-    rep.check(ok, "C04-R5", qual(rd), "default-route removal keeps exactly "
-              "the non-defaultable entries (in order) and fails iff the "
-              "target is exceeded", construct="default removal contract",
-              node=rd)
+        if raise_name(r) != "MinimisationFailedError":
+            continue
+        n = R.cfg.node_of(r)
+        args = [R.term(x, n) for x in r.exc.args]
+        okx = len(args) == 2 and args[0] == rtl and \
+            _exceeds(R.all_facts(n), rtl, args[1])
+    rep.check(ok and okx and n_ret >= 1, "C04-R5", qual(rd), "default-route "
+              "removal returns its table only when there is no target or "
+              "the table meets it, and otherwise raises "
+              "MinimisationFailedError(target, size)",
+              construct="default removal contract", node=rd)
+    # the front end
     mt = program.get(MI + ":minimise_table")
-    mfl = Flow(mt)
-    ok = False
+    M = Terms(mt)
+    tb, mtl, meths = formals(mt)[:3]
+    okr = False
     for r in raises_of(mt):
         if raise_name(r) == "MinimisationFailedError":
-            a = [unparse(x) for x in r.exc.args]
-            ok = a == ["target_length", "best_achieved"]
-    rets = returns_of(mt)
-    okr = False
-    for r in rets:
-        if chain(r.value) == "new_table":
-            ds = mfl.reaching("new_table", mfl.cfg.node_of(r))
-            okr = len(ds) == 1 and unparse(ds[0].value) == \
-                "f(table, target_length)"
-    ins = [c for c in calls_in(mt, "insert")]
-    oki = len(ins) == 1 and unparse(ins[0]) == "methods.insert(0, _identity)"
-    rep.check(ok and okr and oki, "C04-R5", qual(mt), "with a target, the "
-              "first method whose result meets it is returned (identity "
-              "first), else MinimisationFailedError(target, best)",
+            n = M.cfg.node_of(r)
+            okr = M.term(r.exc.args[0], n) == _P(mtl) and \
+                (is_none(_P(mtl)), False) in M.all_facts(n)
+    # every minimiser is a member of the method list, headed by the
+    # identity, and is applied to the caller's table and target
+    calls = []
+    for c in ast.walk(mt):
+        if isinstance(c, ast.Call) and isinstance(c.func, ast.Name):
+            n = M.cfg.node_containing(c)
+            env = _comp_env(M, c)
+            ft = M.term(c.func, n, env)
+            if ft[0] == "elem":
+                calls.append((c, ft, [M.term(x, n, env) for x in c.args]))
+    okm = bool(calls)
+    bad_call = None
+    lists = set()
+    for c, ft, args in calls:
+        lists.add(ft[1])
+        good = len(args) == 2 and args[0] == _P(tb) and (
+            args[1] == _P(mtl) or args[1] == ("const", None))
+        if not good:
+            bad_call = c
+        okm = okm and good
+    oki = len(lists) == 1
+    if oki:
+        L = list(lists)[0]
+        ins = [c for c in calls_in(mt, "insert")
+               if M.term(c.func.value) == L]
+        oki = len(ins) == 1 and M.term(ins[0].args[0]) == ("const", 0) and \
+            M.term(ins[0].args[1]) == ("global", "_identity") and \
+            unsite(L) == ("call", ("global", "list"), (_P(meths),), ())
+    rep.check(okr and oki, "C04-R5", qual(mt), "with a target, the methods "
+              "are tried in order, identity first; when none succeeds "
+              "MinimisationFailedError(target, best) is raised",
               construct="minimise_table contract", node=mt)
+    rep.check(okm, "C04-R5", qual(mt), "every minimiser is applied to the "
+              "caller's own table and target (never to another minimiser's "
+              "output)", construct="minimiser input", node=bad_call or mt,
+              fail="a minimiser is applied to something other than the "
+                   "caller's table: e.g. ordered covering run on a table "
+                   "whose default-routed entries were already removed "
+                   "merges entries that capture the removed entries' keys")
     idf = program.get(MI + ":_identity")
-    ifl = Flow(idf)
-    ok = False
+    I = Terms(idf)
+    itb, itl = formals(idf)[:2]
+    ok = True
+    n_ret = 0
     for r in returns_of(idf):
-        f = ifl.facts(ifl.cfg.node_of(r))
-        # reached via: target is None  or  len(table) < / <= target
-        ok = True
-    t = unparse(idf)
-    ok = ("target_length is None or len(table) < target_length" in t or
-          "target_length is None or len(table) <= target_length" in t)
-    rep.check(ok, "C04-R5", qual(idf), "the unminimised table is returned "
-              "only when it meets the target", construct="identity contract",
-              node=idf)
+        if r.value is None:
+            continue
+        n = I.cfg.node_of(r)
+        if I.term(r.value, n) != _P(itb):
+            ok = False
+            continue
+        n_ret += 1
+        for ent, facts in I.facts_by_path(n):
+            ok = ok and _meets(facts, _P(itl), _len(_P(itb))) is not None
+    rep.check(ok and n_ret >= 1, "C04-R5", qual(idf), "the unminimised "
+              "table is returned only when it meets the target",
+              construct="identity contract", node=idf)
     mts = program.get(MI + ":minimise_tables")
-    okt = "minimise_table(table, lengths[chip], methods)" in unparse(mts)
+    S = Terms(mts)
+    cs = calls_in(mts, "minimise_table")
+    okt = len(cs) == 1
+    if okt:
+        n = S.cfg.node_containing(cs[0])
+        b_ = bind(cs[0], mt)
+        E = ("elem", ("items", _P(formals(mts)[0])))
+        tgt = S.term(b_[mtl], n) if mtl in b_ else None
+        okt = S.term(b_[tb], n) == ("comp", E, 1) and tgt is not None and \
+            all(lookup(x) is not None and lookup(x)[1] == ("comp", E, 0)
+                for x in [tgt]) and \
+            S.term(b_.get(meths, ast.Constant(value=0)), n) == \
+            _P(formals(mts)[2])
     rep.check(okt, "C04-R5", qual(mts), "each chip's table is minimised "
               "against that chip's own target with the caller's methods",
               construct="minimise_tables call", node=mts)
     om = program.get(OC + ":minimise")
-    t = unparse(om)
-    rep.check("ordered_covering(routing_table, target_length, no_raise=True)"
-              in t and "remove_default_routes(table, target_length)" in t,
-              "C04-R5", qual(om), "ordered covering is followed by default-"
-              "route removal (with alias checking) against the same target",
-              construct="oc minimise chain", node=om)
-    rep.floor("C04-R5", 7)
+    O = Terms(om)
+    okc = False
+    for r in returns_of(om):
+        t = O.term(r.value) if r.value is not None else None
+        if t is None or t[0] != "call" or \
+                t[1] != ("global", "remove_default_routes"):
+            continue
+        b_ = dict(zip(formals(rd), t[2]))
+        b_.update(dict(t[3]))
+        inner = b_.get(formals(rd)[0])
+        okc = inner is not None and inner[0] == "comp" and inner[2] == 0 \
+            and inner[1][0] == "call" and \
+            inner[1][1] == ("global", "ordered_covering") and \
+            b_.get(formals(rd)[1]) == _P(formals(om)[1]) and \
+            b_.get(formals(rd)[2], ("const", True)) == ("const", True)
+        if okc:
+            ob = dict(zip(formals(oc), inner[1][2]))
+            ob.update(dict(inner[1][3]))
+            okc = ob.get(rt) == _P(formals(om)[0]) and \
+                ob.get(tl) == _P(formals(om)[1]) and \
+                ob.get("no_raise") == ("const", True)
+    rep.check(okc, "C04-R5", qual(om), "ordered covering is followed by "
+              "default-route removal (with alias checking) against the "
+              "same target", construct="oc minimise chain", node=om)
+    rep.floor("C04-R5", 8)
 
 
 def r6_empty(program, rep):
